@@ -42,6 +42,10 @@ EXC = {
 
 
 def run(ctx, obs):
+    from .c12 import value_immutability
+    value_immutability(ctx, obs, prefixes=('rdm.rdms.', 'util.descriptor_utils.', 'util.rdm_utils.'))
+    from ..rules import sweeps
+    sweeps.run(ctx, obs, 'C10')
     prog = ctx.prog
     for q in PRODUCERS:
         n = field_provenance(ctx, obs, q, ['RDMs'], FIELDS, exceptions=EXC)
